@@ -8,11 +8,12 @@
 (* accepts, the object then equals the decoded value tree, and serialize   *)
 (* of that tree gives back the bytes (keys in bytewise order).             *)
 (***************************************************************************)
-EXTENDS Integers, Sequences, FiniteSets, TLC
+EXTENDS Integers, Sequences, FiniteSets, TLC, FmtTable
 CONSTANTS K, Sigma, Families, EmitOn
 
 CI == INSTANCE ClassImpl
 F  == INSTANCE BinsonFormat
+R  == INSTANCE Render WITH FmtF <- FmtF      \* Binson::toStr() must be the reference rendering (C14 through the class)
 
 Rep(b, n) == [i \in 1..n |-> b]
 VARIABLES buf, n, res
@@ -52,6 +53,8 @@ DumpKids(kids, i, named) ==
   IF i > Len(kids) THEN ""
   ELSE (IF named THEN F!HexStr(kids[i].name) \o ":" ELSE "") \o Dump(kids[i].vt) \o DumpKids(kids, i + 1, named)
 
+RECURSIVE KnownD(_)
+KnownD(vt) == IF vt.t = "double" THEN vt.v \in FmtKnown ELSE \A i \in 1..Len(vt.kids) : KnownD(vt.kids[i].vt)
 Check(closeIt) ==
   /\ ~res.done /\ n' = n
   /\ buf' = IF closeIt THEN buf \o <<65>> ELSE buf
@@ -62,7 +65,8 @@ Check(closeIt) ==
                    same |-> (a.ok /\ d.ok) => d.vt = vtA,
                    back |-> (a.ok /\ d.ok) => CI!Serialize(d.vt) = buf']
         /\ (EmitOn => PrintT("CBEH " \o (IF buf' = <<>> THEN "-" ELSE F!HexStr(buf')) \o " | ok=" \o (IF a.ok THEN "1" ELSE "0")
-                             \o " tree=" \o (IF a.ok THEN Dump(vtA) ELSE "x")))
+                             \o " tree=" \o (IF a.ok THEN Dump(vtA) ELSE "x")
+                             \o " text=" \o (IF a.ok /\ KnownD(vtA) THEN F!HexStr(R!RenderVT(vtA)) ELSE "x")))
 Next == Add \/ \E c \in BOOLEAN : Check(c)
 Spec == Init /\ [][Next]_vars
 
